@@ -71,7 +71,7 @@ example : Gen.validationAfterWrite.length ≥ 60 := by decide +kernel
 
 ## A. kernels -/
 
-section kernels
+section
 open TE.Index TE.IndexL
 variable {α : Type}
 
@@ -112,11 +112,11 @@ theorem unguarded_kernel_witness :
     modifyAt .unchecked [0, 0, 0] (-1) (· + (1 : Nat)) = .undefined ∧
     modifyAt .raises [0, 0, 0] (-1) (· + (1 : Nat)) = .raised := by decide
 
-end kernels
+end
 
 /-! ## B. `idx_in_range_*` on the typed models -/
 
-section families
+section
 open TE.Index TE.IndexL
 
 /-- `torch.argmax(row)` of a non-empty row is a position of the row (index by construction). -/
@@ -325,11 +325,11 @@ theorem idx_in_range_bleu_order {α : Type} (s : List α) (N : Nat) :
 
 example : Text.allNgrams [1, 2, 3] 2 = [[1], [2], [3], [1, 2], [2, 3]] := by decide
 
-end families
+end
 
 /-! ## C. decided obligations over the regenerated inventory -/
 
-section table
+section
 open TE.Index
 
 /-- behaviour of a kernel kind as observed on the installed torch. -/
@@ -385,6 +385,6 @@ theorem kernel_behaviour_table :
 example : Gen.indexSites.length ≥ 100 := by decide +kernel
 example : ∃ s ∈ Gen.indexSites, s.guard = .explicitCheck ∧ s.kind = "sparse_coo_tensor" := by decide +kernel
 
-end table
+end
 
 end TE.C14
